@@ -67,8 +67,11 @@ def fro(x):
 
 
 def to_up(x):
+    # contiguous: the contraction must depend on the values only, not on the memory layout (BLAS picks different
+    # summation orders for strided operands, which differ in the last bit)
     x = x.detach().to(up(x.dtype))
-    return x.resolve_conj() if x.is_complex() else x
+    x = x.resolve_conj() if x.is_complex() else x
+    return x.contiguous()
 
 
 def bit_equal(a, b):
